@@ -2242,14 +2242,31 @@ fn get_missing_param_comments(
         mk_sp(missing_comment_span_lo, ty_span.lo())
     };
 
+    // What follows a comment that ends as a line comment has to start on a new line, or it
+    // would become part of the comment.
+    let sep_after = |comment: &str| {
+        if is_last_comment_block(comment) {
+            Cow::from(" ")
+        } else {
+            shape.indent.to_string_with_newline(context.config)
+        }
+    };
     let comment_before_colon = rewrite_missing_comment(span_before_colon, shape, context)
         .ok()
         .filter(|comment| !comment.is_empty())
-        .map_or(String::new(), |comment| format!(" {}", comment));
+        .map_or(String::new(), |comment| {
+            if is_last_comment_block(&comment) {
+                format!(" {comment}")
+            } else {
+                format!(" {comment}{}", sep_after(&comment))
+            }
+        });
     let comment_after_colon = rewrite_missing_comment(span_after_colon, shape, context)
         .ok()
         .filter(|comment| !comment.is_empty())
-        .map_or(String::new(), |comment| format!("{} ", comment));
+        .map_or(String::new(), |comment| {
+            format!("{comment}{}", sep_after(&comment))
+        });
     (comment_before_colon, comment_after_colon)
 }
 
